@@ -185,6 +185,11 @@ def corpus():
     rs = [{'sheets': sh, 'deps': deps, 'entry': e} for e in ([1, 0, 0], [0, 2, 0], [0, 1, 1], [0, 3, 3], None)]
     rs += [{'sheets': cyc, 'deps': cdeps, 'entry': e} for e in ([0, 0, 0], [0, 3, 0], [0, 0, 1], None)]
     rs += [{'sheets': selfc, 'deps': [[[0, 1, 1], [[0, 1, 1]]]], 'entry': [0, 1, 1]}]
+    # the same whole column reached from several formulas (and twice from one) in one translation
+    wc = [['S0', {'A1': 1, 'A2': 2, 'A3': 5, 'C1': '=SUM(A:A)', 'C2': '=COUNT(A:A)+SUM(A:A)', 'D1': '=C1+C2'}], ['Data', {'B1': 4, 'B2': 6, 'A1': '=SUM(Data!B:B)+S0!C1', 'A2': '=MAX(B:B)'}]]
+    colA, colB = [[0, 0, 0], [0, 0, 1], [0, 0, 2]], [[1, 1, 0], [1, 1, 1]]
+    wdeps = [[[0, 2, 0], colA], [[0, 2, 1], colA], [[0, 3, 0], [[0, 2, 0], [0, 2, 1]]], [[1, 0, 0], colB + [[0, 2, 0]]], [[1, 0, 1], colB]]
+    rs += [{'sheets': wc, 'deps': wdeps, 'entry': e} for e in ([0, 3, 0], [1, 0, 0], [0, 2, 1], [1, 0, 1], None)]
     return rs
 
 
